@@ -276,6 +276,10 @@ struct Exec
             if (dlerr)
             {
                 NoFault nf;
+                // the loader owns and reuses the buffer dlerror() pointed to: an exception that kept
+                // the pointer instead of a copy now shows garbage
+                for (auto& ch : g_ld.returned)
+                    ch = '#';
                 *dlerr = e.dlerror();
             }
             return C_DL;
